@@ -208,6 +208,14 @@ def main():
                                    [{"op": "addRule", "id": "ra", "rule": {"when": {"pattern": {"go": "?x"}}, "condition": {"pattern": {"k": "?k"}},
                                                                             "action": {"code": "Env.AddFact(\"w\", {\"z\": 1})"}}}],
                           "clients": [[{"op": "event", "event": {"go": 1}}] * 8] * (1 + r % 2)})
+    # scheduled rules that come due while clients work on the location: the cron fires them from its own goroutine with the context
+    # their add hook captured; they take the state lock like any other request (real cron.AddHooks + InternalCron)
+    for st in ("indexed", "linear"):
+        for r in range(2 if not ck.thorough else 8):
+            fire = {"code": "Env.AddFact(\"fired\", {\"z\": 1})"}
+            cases.append({"kind": "c12.conc", "cid": "cronfire:%s:%d" % (st, r), "state": st, "seed": r + 7, "jitter_us": 300, "cronhooks": True, "group": "stress", "timeout_ms": 30000,
+                          "setup": [{"op": "addRule", "id": "s%d" % i, "rule": {"schedule": "+%dms" % (20 + 15 * i), "action": fire}} for i in range(4)],
+                          "clients": [[g.fact_op(rng) for _ in range(150)] for _ in range(3)]})
     nstress = 0
     for st in ("indexed", "linear"):
         for k, nops in ([(2, 120), (4, 100), (8, 60)] if not ck.thorough else [(k, 200) for k in range(2, 9)] * 3):
